@@ -275,6 +275,12 @@ CORPUS += [
 E_ = "rl4co/envs/eda/"
 CORPUS += [
     # ---------------------------------------------------------------- C08
+    V("C08", "mdpp-gen-probe-left-open", "rl4co/envs/eda/mdpp/generator.py", 'available.scatter_(1, probe, False)', 'available.scatter_(1, probe, True)', 'C08.f'),
+    V("C08", "dpp-gen-probe-left-open", "rl4co/envs/eda/dpp/generator.py", 'available.scatter_(1, probe, False)', 'available.scatter_(1, probe, True)', 'C08.f'),
+    V("C08", "mdpp-gen-probes-left-open", "rl4co/envs/eda/mdpp/generator.py", 'available[i] = a.scatter(0, p, False)', 'available[i] = a.scatter(0, p, True)', 'C08.f'),
+    V("C08", "mdpp-gen-probe-map-empty", "rl4co/envs/eda/mdpp/generator.py", 'probes[i] = probes[i].scatter(0, p, True)', 'probes[i] = probes[i].scatter(0, p, False)', 'C08.f'),
+    V("C08", "dpp-gen-keepout-not-closed", "rl4co/envs/eda/dpp/generator.py", 'available[i] = a.scatter(0, k, False)', 'available[i] = a', 'C08.f'),
+    V("C08", "eq-dpp-gen-scatter-kw", "rl4co/envs/eda/dpp/generator.py", 'available.scatter_(1, probe, False)', 'available.scatter_(dim=1, index=probe, value=False)', None),
     V("C08", "flp-done-off-by-one", G_ + "flp/env.py", 'done = td["i"] >= (td["to_choose"] - 1)', 'done = td["i"] >= td["to_choose"]', "C08.a"),
     V("C08", "mcp-done-strict", G_ + "mcp/env.py", 'done = td["i"] >= (td["n_sets_to_choose"] - 1)', 'done = td["i"] > (td["n_sets_to_choose"] - 1)', "C08.a"),
     V("C08", "dpp-counter-double-increment", E_ + "dpp/env.py", '"i": td["i"] + 1,', '"i": td["i"] + 2,', "C08.a"),
